@@ -60,6 +60,9 @@ class Delimited(Harness):
                     out.append(dict(fmt=fmt, rows=rows, header=["#comment line", "#x"], crlf=False))
                 if fmt == "bed6" and all(r[4] == 1 for r in rows):
                     out.append(dict(fmt=fmt, rows=rows, score_dots=True))
+        # float texts with many decimals (19 and more digits after the point: powers of ten beyond the int64 range)
+        for lits in (["0.0000000000000000001", "1.5", "0.00123456789012345678"], ["12.0000000000000000005", "0.25"], ["0.1234567890123456789012345"]):
+            out.append(dict(fmt="bedgraph", rows=[[1, 1, 1, len(t)] for t in lits], literal_floats=lits))
         # the '.' placeholder in some records only (a score column mixing '.' and numbers is well-formed)
         for dots in ([0], [1], [0, 2], [2]):
             rows = [[1, 1, 1, 1, 1 if r in dots else 2, 1] for r in range(3)]
@@ -101,6 +104,15 @@ class Delimited(Harness):
                     if not isinstance(got, list) or len(got) != len(ref):
                         return False
                     conj += [TI(g) == e for g, e in zip(got, ref)]
+                elif kind == "float" and skel.get("literal_floats"):
+                    # concrete text, concrete double: equal to the decimal value of the text up to a relative 1e-12 (accuracy in ulps is C18's subject)
+                    from fractions import Fraction
+                    want = Fraction(skel["literal_floats"][r])
+                    try:
+                        ok = abs(Fraction(float(got)) - want) <= Fraction(1, 10 ** 12) * abs(want)
+                    except (TypeError, ValueError, OverflowError):
+                        ok = False
+                    conj.append(z3.BoolVal(bool(ok)))
                 elif kind == "float":
                     from symnp.core import T
                     g = T(got)
@@ -142,7 +154,10 @@ class Delimited(Harness):
                 vals = [cx[f"c{r}_{c}_{j}"] for j in range(w)]
                 exp = F.py_value(kind, vals, signed=(r, c) in signed, dot=F.list_spec(skel, r, c) if kind == "ilist" else None)
                 got = cout["cols"][nm][r]
-                ok = (abs(float(got) - exp) <= 1e-9 * max(1, abs(exp))) if kind == "float" else (got == exp)
+                if kind == "float" and skel.get("literal_floats"):
+                    ok = abs(float(got) - exp) <= 1e-12 * abs(exp)
+                else:
+                    ok = (abs(float(got) - exp) <= 1e-9 * max(1, abs(exp))) if kind == "float" else (got == exp)
                 if not ok:
                     return f"file {text!r}: column {nm} of record {r} parsed as {got!r}, the text {bytes(vals).decode('latin1')!r} means {exp!r}"
         return None
@@ -340,7 +355,7 @@ class VCF(Harness):
                         V.assume(F._id_ok(v.t))
             for j in range(rec["pos"]):
                 V.int(f"v{r}_p{j}", 48, 57)
-            V.assume(z_or([V.vars[f"v{r}_p{j}"].t != 48 for j in range(rec["pos"])]))      # POS >= 1
+            # POS 0 is legal (a telomere): it reads as -1
             for j in range(rec["dpw"]):
                 V.int(f"v{r}_d{j}", 48, 57)
             if rec.get("af"):
